@@ -2,7 +2,8 @@
 // The store matches on hash_map::Entry over HashMap<u64, BTreeMap<..>> behind a parking_lot mutex and hands its state
 // back to the plane in Drop: outside the installed Verus (Entry API, String-keyed HashMap with borrowed &str lookups) and
 // Kani (std HashMap). Checked natively on EVERY operation sequence up to VERIF_BX_DEPTH over two agents {/x, /y},
-// item names {a, b}, map keys {"", "k"}, values {"", "v", "ww"}, including dropping a node store and re-opening it.
+// item names {a, b}, map keys {"", "k"}, values {"", "v", "ww"}, including dropping a node store and re-opening it and
+// requests for the store of a running agent that are abandoned.
 // Contract (abstract model): a mapping (agent URI, item name) -> Value(bytes) | Map(key -> bytes) | nothing;
 //   every read returns exactly what the preceding writes to that item imply; items/agents never affect each other;
 //   the id assigned to a name never changes and never collides; using a value item as a map (or vice versa) is rejected
@@ -27,6 +28,8 @@ enum Op {
     Clear(usize, usize),
     Read(usize, usize),
     Reopen(usize),
+    // a second request for the store of a running agent that is given up (the future is dropped un-polled / after one poll)
+    Abandon(usize, bool),
 }
 const URIS: [&str; 2] = ["/x", "/y"];
 const NAMES: [&str; 2] = ["a", "b"];
@@ -37,6 +40,8 @@ fn ops() -> Vec<Op> {
     let mut v = vec![];
     for a in 0..2 {
         v.push(Op::Reopen(a));
+        v.push(Op::Abandon(a, false));
+        v.push(Op::Abandon(a, true));
         for n in 0..2 {
             v.push(Op::Get(a, n));
             v.push(Op::Delete(a, n));
@@ -65,13 +70,34 @@ fn run_sequence(seq: &[Op]) -> Result<(), String> {
     let mut nodes: Vec<Option<InMemoryNodePersistence>> = vec![Some(open(&plane, 0)), Some(open(&plane, 1))];
     let mut model = Model::new();
     let mut ids: BM<(usize, usize), u64> = BM::new();
-    for (step, op) in seq.iter().enumerate() {
+    // epilogue: every agent is stopped and started again and every item is read back
+    let mut all: Vec<Op> = seq.to_vec();
+    for a in 0..2 {
+        all.push(Op::Reopen(a));
+        for n in 0..2 {
+            all.push(Op::Get(a, n));
+            all.push(Op::Read(a, n));
+        }
+    }
+    for (step, op) in all.iter().enumerate() {
         let (a, n) = match *op {
             Op::Put(a, n, _) | Op::Get(a, n) | Op::Delete(a, n) | Op::Update(a, n, _, _) | Op::Remove(a, n, _) | Op::Clear(a, n) | Op::Read(a, n) => (a, n),
             Op::Reopen(a) => {
                 // the agent stops (store handed back to the plane) and is started again
                 nodes[a] = None;
                 nodes[a] = Some(open(&plane, a));
+                continue;
+            }
+            Op::Abandon(a, polled) => {
+                let mut fut = plane.node_store(URIS[a]);
+                if polled {
+                    let waker = futures::task::noop_waker();
+                    let mut cx = std::task::Context::from_waker(&waker);
+                    if fut.as_mut().poll(&mut cx).is_ready() {
+                        return Err(format!("step {step}: a second store for the running agent {} was handed out", URIS[a]));
+                    }
+                }
+                drop(fut);
                 continue;
             }
         };
@@ -212,7 +238,7 @@ fn run_sequence(seq: &[Op]) -> Result<(), String> {
                     }
                 }
             },
-            Op::Reopen(_) => unreachable!(),
+            Op::Reopen(_) | Op::Abandon(..) => unreachable!(),
         }
     }
     Ok(())
